@@ -81,7 +81,7 @@ void* MEM::TempAlloc::Alloc(size_t len, size_t alignment)
 
 void MEM::TempAlloc::Free(void* ptr)
 {
-    if (ptr == m_CurrentMemoryBlock->GetData(m_LastPos))
+    if (m_CurrentMemoryBlock && ptr == m_CurrentMemoryBlock->GetData(m_LastPos))
     {
         m_CurrentMemoryPos = m_LastPos;
     }
